@@ -925,5 +925,54 @@ fn c11_roundtrip_set(a: &HashSet, lg_config_k: u8, hll_type: HllType) -> (b: Has
 }
 #[verifier::external_body] fn c11_unreachable_set() -> HashSet requires false { unreachable!() }
 
+
+// =====================================================================================================================
+// REFINEMENT MAPPING for unit hll_dispatch (tools/linkprove.py).  hll_dispatch calls every per-mode parser through a stub
+//     T_accepts(payload, fields) ==> r is Ok,      r matches Ok(a) ==> T_parsed(a, payload, fields)
+// with T_accepts / T_parsed uninterpreted there.  Here they are DEFINED as the clauses this unit states for the real body
+// (one conjunct per tagged clause of `deserialize`; a rejection clause `c ==> r is Err` appears as `!c`), so the stub is implied.
+// =====================================================================================================================
+spec fn list_accepts(p: Seq<u8>, lg_arr: usize, count: usize, empty: bool, compact: bool) -> bool {
+    lg_arr <= 18 && list_stored(lg_arr, count, compact) <= pow2(lg_arr as nat) && p.len() >= 4 * list_stored(lg_arr, count, compact)
+}
+spec fn list_parsed(a: List, p: Seq<u8>, lg_arr: usize, count: usize, empty: bool, compact: bool) -> bool {
+    &&& !(lg_arr <= 26 && !empty && count > 0 && p.len() < 4 * list_stored(lg_arr, count, compact))
+    &&& !(lg_arr <= 26 && list_stored(lg_arr, count, compact) > pow2(lg_arr as nat))
+    &&& a.container.lg_size == lg_arr
+    &&& a.container.len == count
+    &&& (lg_arr <= 26 && !empty && count > 0 ==> a.container.coupons@ == dec_u32s(p, list_stored(lg_arr, count, compact)) + zeros(pow2(lg_arr as nat) - list_stored(lg_arr, count, compact)))
+    &&& (lg_arr <= 26 && !(!empty && count > 0) ==> a.container.coupons@ == zeros(pow2(lg_arr as nat) as int))
+    &&& a.container.wf_lg() && (lg_arr < 64 ==> a.container.wf_capacity()) && a.container.wf_len()
+}
+spec fn set_accepts(p: Seq<u8>, lg_arr: usize, compact: bool) -> bool {
+    (compact || lg_arr <= 18) && p.len() >= 4 && p.len() - 4 >= 4 * (if compact { le32_val(p.take(4)) as int } else { pow2(lg_arr as nat) as int })
+}
+spec fn set_parsed(a: HashSet, p: Seq<u8>, lg_arr: usize, compact: bool) -> bool {
+    &&& !(p.len() < 4)
+    &&& a.container.lg_size == lg_arr
+    &&& (compact ==> p.len() >= 4 && ({
+            let n = le32_val(p.take(4)) as int; let q = p.skip(4);
+            q.len() >= 4 * n && ((forall|j: int| 0 <= j < n ==> dec_u32_at(q, j) != 0) ==> a.container.cset() == seq_set(dec_u32s(q, n)) && a.container.wf_len()) }))
+    &&& (!compact && lg_arr <= 26 ==> p.len() >= 4 && a.container.len == le32_val(p.take(4)) && a.container.coupons@ == dec_u32s(p.skip(4), pow2(lg_arr as nat) as int))
+    &&& a.container.wf_lg() && (lg_arr < 64 ==> a.container.wf_capacity()) && a.container.wf_len() && a.wf_load()
+}
+
+// REFINEMENT MAPPING for unit hll_api (tools/linkprove.py): hll_api calls the per-mode writers through stubs
+//     requires self.ser_pre() [, lg_config_k == self.lg_config_k]     ensures self.image(lg_config_k, [hll_type,] r@)
+// with `ser_pre` / `image` uninterpreted there; here they are the precondition and the conjunction of the clauses proved for the real body.
+impl List {
+    spec fn ser_pre(&self) -> bool { self.container.wf_len() && self.container.len <= 255 && self.container.lg_size <= 255 }
+    spec fn image(&self, lg: u8, t: HllType, b: Seq<u8>) -> bool {
+        &&& b == enc_hll_list(lg, self.container.lg_size as u8, tgt_of(t), true, self.container.len as u8, nz(self.container.coupons@))
+        &&& b.len() == 8 + 4 * self.container.len
+    }
+}
+impl HashSet {
+    spec fn ser_pre(&self) -> bool { self.container.wf() }
+    spec fn image(&self, lg: u8, t: HllType, b: Seq<u8>) -> bool {
+        &&& (exists|l: Seq<u32>| sorted_perm_of(l, nz(self.container.coupons@)) && b == #[trigger] enc_hll_set(lg, self.container.lg_size as u8, tgt_of(t), true, self.container.len as u32, l))
+        &&& b.len() == 12 + 4 * self.container.len
+    }
+}
 }
 fn main(){}
